@@ -34,6 +34,8 @@ HeaderVals(b, off) ==
        <<0,0,1,0>>, <<255,255,255,127>>, <<0,0,0,128>>, <<251,255,255,255>>, <<252,255,255,255>>, <<255,255,255,255>> }
 
 NonCanon == <<164, 48>> \o [i \in 1..14 |-> 0] \o <<1>> \o [i \in 1..7 |-> 0]     \* p + 1
+ExactlyP == <<163, 48>> \o [i \in 1..14 |-> 0] \o <<1>> \o [i \in 1..7 |-> 0]     \* p itself
+PMinusOne == <<162, 48>> \o [i \in 1..14 |-> 0] \o <<1>> \o [i \in 1..7 |-> 0]    \* p - 1 (canonical)
 HighLimb == <<1>> \o [i \in 1..22 |-> 0] \o <<1>>
 
 FaultClass(f) == f[1]
@@ -44,6 +46,9 @@ Apply(b, sh, f) ==
        [] f[1] = "noncanx" -> SetAt(b, h.x, NonCanon)
        [] f[1] = "highx"   -> SetAt(b, h.x, HighLimb)
        [] f[1] = "noncany" -> SetAt(b, h.x + 24, NonCanon)
+       [] f[1] = "px"      -> SetAt(b, h.x, ExactlyP)
+       [] f[1] = "py"      -> SetAt(b, h.x + 24, ExactlyP)
+       [] f[1] = "pm1x"    -> SetAt(b, h.x, PMinusOne)
        [] f[1] = "thr"     -> SetAt(b, h.thr, f[2])
        [] f[1] = "trail"   -> b \o Pat(f[2], 9)
        [] f[1] = "flip"    -> SetAt(b, f[2], <<(b[f[2] + 1] + 128) % 256>>)
@@ -56,7 +61,7 @@ TruncPoints(b, sh) ==
 Faults(b, sh) ==
   {<<"trunc", n>> : n \in TruncPoints(b, sh)}
   \cup {<<"hdr", fld, v>> : fld \in {"ct", "share", "S", "C", "D", "tag"}, v \in UNION {HeaderVals(b, MsgHdrs(sh)[fl]) : fl \in {"ct", "share", "S", "C", "D", "tag"}}}
-  \cup {<<"noncanx">>, <<"highx">>} \cup (IF sh[1] >= 1 THEN {<<"noncany">>} ELSE {})
+  \cup {<<"noncanx">>, <<"highx">>, <<"px">>, <<"pm1x">>} \cup (IF sh[1] >= 1 THEN {<<"noncany">>, <<"py">>} ELSE {})
   \cup {<<"thr", <<0,0,0,0>>>>, <<"thr", <<255,255,255,255>>>>}
   \cup {<<"trail", 1>>, <<"trail", 24>>}
   \cup {<<"flip", MsgHdrs(sh).x + 16>>, <<"flip", MsgHdrs(sh).tag - 1>>}
@@ -66,7 +71,7 @@ Next == /\ Len(log) < MaxFaults
         /\ \E f \in Faults(SeedMsg(shape), shape) :
               /\ \A i \in 1..Len(log) : FaultClass(log[i]) # FaultClass(f)
               /\ (f[1] = "trunc" => f[2] <= Len(bytes))
-              /\ (f[1] \in {"hdr", "noncanx", "highx", "noncany", "thr", "flip"} => Len(bytes) >= MsgHdrs(shape).tag + 4)
+              /\ (f[1] \in {"hdr", "noncanx", "highx", "noncany", "px", "py", "pm1x", "thr", "flip"} => Len(bytes) >= MsgHdrs(shape).tag + 4)
               /\ bytes' = Apply(bytes, shape, f)
               /\ log' = Append(log, f)
         /\ UNCHANGED shape
